@@ -181,6 +181,40 @@ def manifest_roundtrip(tier, focus):
     return fn
 
 
+def large_manifest(b, sym):
+    """a manifest well beyond 32 KiB (the block size lxml feeds its parser with): every record reads back"""
+    import ascmhl.hashlist as HL
+    import ascmhl.hashlist_xml_parser as XP
+    b.mkdir("R/ascmhl")
+    hl = HL.MHLHashList()
+    ci = HL.MHLCreatorInfo()
+    ci.tool = HL.MHLTool("ascmhl", "1.2")
+    ci.creation_date = "2020-01-15T13:00:00+00:00"
+    ci.host_name = "host.local"
+    ci.comment = "x" * sym.choose("comment_length", [0, 7, 19, 37, 53, 71, 97, 113, 131, 151, 173, 199])
+    hl.creator_info = ci
+    hl.process_info.process = HL.MHLProcess("in-place")
+    n = 420
+    paths = []
+    for i in range(n):
+        mh = HL.MHLMediaHash()
+        mh.path = "Clips/Reel_%03d/A%03dC%03d_200115_R%s.mov" % (i // 20, i // 20, i, "Z" * (i % 11))
+        mh.file_size = 1000 + i
+        mh.append_hash_entry(HL.MHLHashEntry("md5", b.Hcid("md5", i + 1, 5), "original", mkdate(b, 1577836800 + i, 0)))
+        hl.append_hash(mh)
+        paths.append(mh.path)
+    target = "R/ascmhl/0001_R_2020-01-15_130000Z.mhl"
+    XP.write_hash_list(hl, b.p(target))
+    back = XP.parse(b.p(target))
+    b.require(len(back.media_hashes) == n, "record-count", "%d vs %d" % (len(back.media_hashes), n))
+    for i, mh in enumerate(back.media_hashes):
+        b.require(mh.path == paths[i], "record-path", "record %d of a %d-record manifest: %r vs %r" % (i, n, mh.path, paths[i]))
+        b.require(mh.file_size is not None and truth(mh.file_size == 1000 + i), "record-size", paths[i])
+        b.require(len(mh.hash_entries) == 1 and truth(mh.hash_entries[0].hash_string == b.Hcid("md5", i + 1, 5)), "entry-digest", paths[i])
+    m = b.read_manifest_at(target)
+    b.require([r_.path for r_ in m.records] == paths, "independent-record", "")
+
+
 def chain_roundtrip(b, sym):
     import ascmhl.hashlist as HL
     import ascmhl.chain as CH
@@ -229,6 +263,10 @@ def harnesses(tier):
                        "object graph; an independent reader extracts the same values" % d,
                   bounds={"symbolic dimension": d, "other dimensions": "one fixed representative value", "formats": "md5,c4 (quick) + xxh64 (thorough)"},
                   outside=out) for k, d in desc.items()]
+    hs.append(Harness("c10-large", large_manifest, frontier=4, budget_s=900, conformance=12,
+                      what="a 420-record manifest (about 100 KiB, several parser read blocks) with 12 header lengths shifting the block borders: every "
+                           "record reads back (all 12 are replayed through the real lxml)",
+                      bounds={"records": 420, "header lengths": 12}, outside=out))
     hs.append(Harness("c10-chain", chain_roundtrip, frontier=3, budget_s=300,
                       what="chain of 0-3 generations + one new -> write_chain -> parse -> equality; independent reader agrees",
                       bounds={"existing generations": "0-3"}, outside=out))
